@@ -78,13 +78,27 @@ func (e *Enc) instr(fr *Frame, st *State, instr ssa.Instruction) {
 		} else {
 			d.fnv = e.val(fr, st, x.Call.Value)
 		}
+		d.guard = st.reach
 		fr.defers = append(fr.defers, d)
 	case *ssa.RunDefers:
 		ds := fr.defers
 		for i := len(ds) - 1; i >= 0; i-- {
 			d := ds[i]
 			if !d.instr.Block().Dominates(x.Block()) {
-				e.unsupported("conditional defer")
+				// the defer was registered only on paths through its block
+				t := st.clone()
+				e.branch(t, d.guard)
+				f := st.clone()
+				e.branch(f, not(d.guard))
+				if !t.dead() {
+					e.callCommon(fr, t, &d.instr.Call, d.args, d.fnv, d.instr)
+				}
+				m := e.mergeStates([]edgeIn{{nil, t}, {nil, f}})
+				*st = *m
+				if st.dead() {
+					return
+				}
+				continue
 			}
 			e.callCommon(fr, st, &d.instr.Call, d.args, d.fnv, d.instr)
 			if st.dead() {
